@@ -60,6 +60,7 @@ APP(sid, pid, h)      == [t |-> "PP", sid |-> sid, pid |-> pid, h |-> h, blk |->
 ACont(sid)            == [t |-> "CONT", sid |-> sid]
 AUnknown(sid)         == [t |-> "UNKNOWN", sid |-> sid]
 CInit(x)              == [a |-> "call", x |-> x, c |-> [op |-> "init"]]
+CUpg(from, pairs)     == [op |-> "upg", src |-> from, s |-> pairs]
 CCall(x, c)           == [a |-> "call", x |-> x, c |-> c]
 CRecv(x, fs)          == [a |-> "recv", x |-> x, fs |-> fs]
 CDlv(x, k)            == [a |-> "dlv", x |-> x, k |-> k]
@@ -73,7 +74,12 @@ PairHandshake         == <<CInit("c"), CInit("s"), CDlv("s", 1), CDlv("c", 2), C
 St0 == [eps |-> [x \in Roles |-> InitEp(x, IF x = "c" THEN CfgC ELSE CfgS, MaxClosed)],
         chan |-> [x \in Roles |-> <<>>]]
 
-Visible(frames) == SelectSeq(frames, LAMBDA f : f.t # "PREFACE")
+\* frames as they travel: a client preface is glued to the frame behind it
+RECURSIVE Visible(_)
+Visible(frames) ==
+  IF frames = <<>> THEN <<>>
+  ELSE IF frames[1].t = "PREFACE" /\ Len(frames) > 1 THEN <<frames[2] @@ [pre |-> TRUE]>> \o Visible(SubSeq(frames, 3, Len(frames)))
+  ELSE <<frames[1]>> \o Visible(Tail(frames))
 \* take the output buffer of side x, hand it to the peer's channel in pair mode
 Flush(S, x, ep, nf) ==
   IF nf THEN [S |-> [S EXCEPT !.eps[x] = ep], o |-> <<>>]
@@ -89,11 +95,20 @@ Do(S, s) ==
   LET x == s.x
       ep == S.eps[x]
   IN CASE s.a = "call" ->
-            LET r == Call(ep, ResolveCall(s.c))
+            \* (pair mode) an upgrading server may be handed the HTTP2-Settings value the upgrading client produced
+            LET cc == IF s.c.op = "upg" /\ s.c.src = "peer"
+                      THEN [s.c EXCEPT !.src = IF Pair /\ S.eps[Other(x)].upgRet # <<>> THEN "lit" ELSE "none",
+                                       !.s = IF Pair THEN S.eps[Other(x)].upgRet ELSE <<>>]
+                      ELSE s.c
+                r == Call(ep, ResolveCall(cc))
                 fl == Flush(S, x, r.ep, NoFlush(s))
             IN [S |-> fl.S, last |-> s @@ [p |-> Pred(r.r, fl.o, <<>>, r.ep), dev |-> r.ep.dev]]
        [] s.a = "recv" ->
-            LET r == Receive(ep, [i \in 1..Len(s.fs) |-> ResolveFrame(s.fs[i], ep)])
+            \* the harness peer of a server starts its first input with the client preface (unless the step says nopre)
+            LET fs0 == [i \in 1..Len(s.fs) |-> ResolveFrame(s.fs[i], ep)]
+                fs1 == IF x = "s" /\ ep.needPre /\ fs0 # <<>> /\ ~("nopre" \in DOMAIN s /\ s.nopre)
+                       THEN <<fs0[1] @@ [pre |-> TRUE]>> \o Tail(fs0) ELSE fs0
+                r == Receive(ep, fs1)
                 fl == Flush(S, x, r.ep, NoFlush(s))
             IN [S |-> fl.S, last |-> s @@ [p |-> Pred(r.r, fl.o, r.ev, r.ep), dev |-> r.ep.dev]]
        [] s.a = "dlv" ->
@@ -143,7 +158,8 @@ H2Exceptions == {"ProtocolError", "FrameTooLargeError", "FrameDataMissingError",
                  "RFC1122Error", "DenialOfServiceError"}
 ProtocolErrors == H2Exceptions \ {"RFC1122Error"}
 \* C29 / C01: a public call that raises adds no bytes to the output
-RaisingCallEmitsNothing == (IsCall /\ last.p.r.c # "ok") => last.p.o = <<>>
+\* (known finding upgrade_raises_after_preamble: initiate_upgrade_connection emits the preamble before it can fail)
+RaisingCallEmitsNothing == (IsCall /\ last.p.r.c # "ok") => (last.p.o = <<>> \/ Excused({"upgrade_raises_after_preamble"}))
 \* C29 / C17: only documented exception classes
 OnlyKnownExceptions ==
   IsStep => \/ last.p.r.c \in {"ok"} \cup H2Exceptions
@@ -302,7 +318,8 @@ P_C16_ContentLength ==
 \* C18: a receive that raises a ProtocolError emits exactly one GOAWAY carrying the exception's code and the
 \* highest peer-initiated stream id; the code for an undecodable block is excused by the marked deviation
 P_C18_OneGoAwayWithCode ==
-  (HasSrc /\ IsRecv /\ ~ROk /\ last.p.r.c \in ProtocolErrors /\ ~NoFlush(last) /\ Pre.out = <<>>) =>
+  (HasSrc /\ IsRecv /\ ~ROk /\ last.p.r.c \in ProtocolErrors /\ ~NoFlush(last) /\ Pre.out = <<>>
+     /\ ~Pre.needPre) =>      \* (only for an invalid client preface may the GOAWAY be omitted)
      /\ Count(OutF, IsGoAway) = 1
      /\ OutF[Len(OutF)].t = "GOAWAY" /\ OutF[Len(OutF)].code = last.p.r.e /\ OutF[Len(OutF)].last = Post.hiIn
      /\ last.p.e = <<>>
@@ -348,6 +365,21 @@ P_C24_AltSvcRules ==
   (HasSrc /\ IsCall /\ last.c.op = "alt" /\ ROk) =>
      /\ (last.x = "s" \/ Excused({"client_advertises_idle"}))
      /\ ~(last.c.org # <<>> /\ last.c.sid # <<>>)
+\* C25: a successful upgrade leaves stream 1 half-closed (local on the client, remote on the server), the next own stream
+\* ids at 3 and 2, and -- when a fresh server was handed the value an upgrading client produced -- the server's view of the
+\* client's settings equal to the settings that client had in force; no request body can be sent on the upgraded stream
+P_C25_UpgradeHandsOver ==
+  /\ (HasSrc /\ IsCall /\ last.c.op = "upg" /\ ROk /\ Pre.conn = "IDLE" /\ Pre.streams = <<>> /\ Pre.hiOut = 0 /\ Pre.hiIn = 0) =>
+        /\ Has(Post, 1)
+        /\ Post.streams[1].st = (IF last.x = "c" THEN "HALF_CLOSED_LOCAL" ELSE "HALF_CLOSED_REMOTE")
+        /\ NextStreamId(Post) = (IF last.x = "c" THEN 3 ELSE 2)
+        /\ (last.x = "c") => LET ids == SelectSeq(Pre.ls.ord, LAMBDA id : id \notin Pre.ls.hn) IN
+                             /\ Len(last.p.r.v) = Len(ids)
+                             /\ \A k \in 1..Len(ids) : last.p.r.v[k] = <<ids[k] % 256, SCur(Pre.ls, ids[k])>>
+        /\ (Pair /\ last.x = "s" /\ last.c.src = "peer" /\ Pre.conn = "IDLE") =>
+              \A k \in 1..Len(eps["c"].upgRet) : LET pr == eps["c"].upgRet[k] IN SHas(Post.rs, pr[1]) /\ SCur(Post.rs, pr[1]) = pr[2]
+  /\ (HasSrc /\ IsCall /\ last.x = "c" /\ last.c.op \in {"data", "end"} /\ last.c.sid = 1 /\ Has(Pre, 1)
+         /\ Pre.streams[1].st = "HALF_CLOSED_LOCAL") => ~ROk
 \* C26: one PING ACK with the same payload per received PING, in order; ACKs are never answered
 IsPingNoAck(f) == f.t = "PING" /\ ~f.ack
 IsPingAck(f) == f.t = "PING" /\ f.ack
